@@ -50,7 +50,7 @@ Extraction "model.ml"
   spec_digest_exec sums
   m_signature m_delta m_patch m_greedy lits out_len
   HubExec.hub_exec HubExec.wire_exec HubSeq.refused HubExec.sync_exec
-  BisyncExec.bi_hist BisyncExec.bi_init BisyncExec.bi_dry
+  BisyncExec.bi_hist BisyncExec.bi_init BisyncExec.bi_dry BisyncExec.bi_steps BisyncExec.bi_crash BisyncExec.bi_state
   header_encode_ck header_decode read_from write_message read_message
   encode_message encode_signature encode_delta decode_message decode_signature decode_delta
   run_delta_top run_patch_top mt_code
